@@ -323,7 +323,9 @@ def family_subjects(part):
         return FAMILY_FILES[part]
     vec = sorted(os.listdir(os.path.join(INC, "avel/impl/vectors")))
     den = sorted(os.listdir(os.path.join(INC, "avel/impl/denominator_vectors")))
-    if part == "all":
+    if part == "scalar":
+        files = []  # only the scalar and scalar-denominator headers (always in the closure) and the common files
+    elif part == "all":
         files = [f for f in vec + den]
     elif part in ("f32", "f64"):
         b = part[1:]
